@@ -40,7 +40,7 @@ class Sim:
     def __exit__(self, *a):
         self.close()
 
-    def server(self, tun=None, domain=None, password=None, extra=(), name="srv", ips=(SERVER_IP, SERVER_IP6)):
+    def server(self, tun=None, domain=None, password=None, extra=(), name="srv", ips=(SERVER_IP, SERVER_IP6), password_on_stdin=False):
         if tun:
             self.tun_net = tun
         if domain:
@@ -49,10 +49,14 @@ class Sim:
             self.password = password
         argv = self.wrap + [self.srv_bin, "-f"] + list(extra)
         env = {"IODINED_PASS": ""}
-        if self.password and b"\0" not in self.password:
+        stdin_data = None
+        if password_on_stdin and self.password:
+            env = {"IODINED_PASS": None}           # unset: iodined then asks for the password on standard input
+            stdin_data = bytes(self.password) + b"\n"
+        elif self.password and b"\0" not in self.password:
             argv += ["-P", self.password]
         argv += [self.tun_net, self.domain]
-        return self.k.spawn(name, "server", argv, list(ips), env=env, san_env=self.env)
+        return self.k.spawn(name, "server", argv, list(ips), env=env, san_env=self.env, stdin_data=stdin_data)
 
     def client(self, name, ip, nameserver, opts=(), password=None, domain=None):
         pw = self.password if password is None else password
